@@ -10,13 +10,13 @@ use crate::{
     Options,
 };
 
-pub(crate) fn add(left: Value, right: Value, options: &Options, span: Span) -> SassResult<Value> {
+pub(crate) fn add(left: Value, right: Value, _options: &Options, span: Span) -> SassResult<Value> {
     Ok(match left {
         Value::Calculation(..) => match right {
             Value::String(s, quotes) => Value::String(
                 format!(
                     "{}{}",
-                    left.to_css_string(span, options.is_compressed())?,
+                    left.to_css_string(span, false)?,
                     s
                 ),
                 quotes,
@@ -44,7 +44,7 @@ pub(crate) fn add(left: Value, right: Value, options: &Options, span: Span) -> S
             Value::String(s, QuoteKind::Quoted) => Value::String(
                 format!(
                     "{}{}",
-                    left.to_css_string(span, options.is_compressed())?,
+                    left.to_css_string(span, false)?,
                     s
                 ),
                 QuoteKind::Quoted,
@@ -52,8 +52,8 @@ pub(crate) fn add(left: Value, right: Value, options: &Options, span: Span) -> S
             _ => Value::String(
                 format!(
                     "{}{}",
-                    left.to_css_string(span, options.is_compressed())?,
-                    right.to_css_string(span, options.is_compressed())?
+                    left.to_css_string(span, false)?,
+                    right.to_css_string(span, false)?
                 ),
                 QuoteKind::None,
             ),
@@ -61,7 +61,7 @@ pub(crate) fn add(left: Value, right: Value, options: &Options, span: Span) -> S
         Value::Null => match right {
             Value::Null => Value::Null,
             _ => Value::String(
-                right.to_css_string(span, options.is_compressed())?,
+                right.to_css_string(span, false)?,
                 QuoteKind::None,
             ),
         },
@@ -107,19 +107,19 @@ pub(crate) fn add(left: Value, right: Value, options: &Options, span: Span) -> S
                 }
             }
             Value::String(s, q) => Value::String(
-                format!("{}{}{}", num.to_string(options.is_compressed()), unit, s),
+                format!("{}{}{}", num.to_string(false), unit, s),
                 q,
             ),
             Value::Null => Value::String(
-                format!("{}{}", num.to_string(options.is_compressed()), unit),
+                format!("{}{}", num.to_string(false), unit),
                 QuoteKind::None,
             ),
             Value::True | Value::False | Value::List(..) | Value::ArgList(..) => Value::String(
                 format!(
                     "{}{}{}",
-                    num.to_string(options.is_compressed()),
+                    num.to_string(false),
                     unit,
-                    right.to_css_string(span, options.is_compressed())?
+                    right.to_css_string(span, false)?
                 ),
                 QuoteKind::None,
             ),
@@ -148,8 +148,8 @@ pub(crate) fn add(left: Value, right: Value, options: &Options, span: Span) -> S
             Value::String(..) | Value::Null | Value::List(..) => Value::String(
                 format!(
                     "{}{}",
-                    c.to_css_string(span, options.is_compressed())?,
-                    right.to_css_string(span, options.is_compressed())?,
+                    c.to_css_string(span, false)?,
+                    right.to_css_string(span, false)?,
                 ),
                 QuoteKind::None,
             ),
@@ -168,7 +168,7 @@ pub(crate) fn add(left: Value, right: Value, options: &Options, span: Span) -> S
         Value::String(text, quotes) => match right {
             Value::String(text2, ..) => Value::String(text + &text2, quotes),
             _ => Value::String(
-                text + &right.to_css_string(span, options.is_compressed())?,
+                text + &right.to_css_string(span, false)?,
                 quotes,
             ),
         },
@@ -176,7 +176,7 @@ pub(crate) fn add(left: Value, right: Value, options: &Options, span: Span) -> S
             Value::String(s, q) => Value::String(
                 format!(
                     "{}{}",
-                    left.to_css_string(span, options.is_compressed())?,
+                    left.to_css_string(span, false)?,
                     s
                 ),
                 q,
@@ -184,8 +184,8 @@ pub(crate) fn add(left: Value, right: Value, options: &Options, span: Span) -> S
             _ => Value::String(
                 format!(
                     "{}{}",
-                    left.to_css_string(span, options.is_compressed())?,
-                    right.to_css_string(span, options.is_compressed())?
+                    left.to_css_string(span, false)?,
+                    right.to_css_string(span, false)?
                 ),
                 QuoteKind::None,
             ),
@@ -193,7 +193,7 @@ pub(crate) fn add(left: Value, right: Value, options: &Options, span: Span) -> S
     })
 }
 
-pub(crate) fn sub(left: Value, right: Value, options: &Options, span: Span) -> SassResult<Value> {
+pub(crate) fn sub(left: Value, right: Value, _options: &Options, span: Span) -> SassResult<Value> {
     Ok(match left {
         Value::Calculation(..) => {
             return Err((
@@ -207,7 +207,7 @@ pub(crate) fn sub(left: Value, right: Value, options: &Options, span: Span) -> S
                 .into())
         }
         Value::Null => Value::String(
-            format!("-{}", right.to_css_string(span, options.is_compressed())?),
+            format!("-{}", right.to_css_string(span, false)?),
             QuoteKind::None,
         ),
         Value::Dimension(SassNumber {
@@ -258,9 +258,9 @@ pub(crate) fn sub(left: Value, right: Value, options: &Options, span: Span) -> S
             | Value::ArgList(..) => Value::String(
                 format!(
                     "{}{}-{}",
-                    num.to_string(options.is_compressed()),
+                    num.to_string(false),
                     unit,
-                    right.to_css_string(span, options.is_compressed())?
+                    right.to_css_string(span, false)?
                 ),
                 QuoteKind::None,
             ),
@@ -284,7 +284,7 @@ pub(crate) fn sub(left: Value, right: Value, options: &Options, span: Span) -> S
                     .into())
             }
             Value::Null => Value::String(
-                format!("{}{}-", num.to_string(options.is_compressed()), unit),
+                format!("{}{}-", num.to_string(false), unit),
                 QuoteKind::None,
             ),
         },
@@ -303,8 +303,8 @@ pub(crate) fn sub(left: Value, right: Value, options: &Options, span: Span) -> S
             _ => Value::String(
                 format!(
                     "{}-{}",
-                    c.to_css_string(span, options.is_compressed())?,
-                    right.to_css_string(span, options.is_compressed())?
+                    c.to_css_string(span, false)?,
+                    right.to_css_string(span, false)?
                 ),
                 QuoteKind::None,
             ),
@@ -312,8 +312,8 @@ pub(crate) fn sub(left: Value, right: Value, options: &Options, span: Span) -> S
         Value::String(..) => Value::String(
             format!(
                 "{}-{}",
-                left.to_css_string(span, options.is_compressed())?,
-                right.to_css_string(span, options.is_compressed())?
+                left.to_css_string(span, false)?,
+                right.to_css_string(span, false)?
             ),
             QuoteKind::None,
         ),
@@ -322,7 +322,7 @@ pub(crate) fn sub(left: Value, right: Value, options: &Options, span: Span) -> S
             Value::String(s, q) => Value::String(
                 format!(
                     "{}-{}{}{}",
-                    left.to_css_string(span, options.is_compressed())?,
+                    left.to_css_string(span, false)?,
                     q,
                     s,
                     q
@@ -330,14 +330,14 @@ pub(crate) fn sub(left: Value, right: Value, options: &Options, span: Span) -> S
                 QuoteKind::None,
             ),
             Value::Null => Value::String(
-                format!("{}-", left.to_css_string(span, options.is_compressed())?),
+                format!("{}-", left.to_css_string(span, false)?),
                 QuoteKind::None,
             ),
             _ => Value::String(
                 format!(
                     "{}-{}",
-                    left.to_css_string(span, options.is_compressed())?,
-                    right.to_css_string(span, options.is_compressed())?
+                    left.to_css_string(span, false)?,
+                    right.to_css_string(span, false)?
                 ),
                 QuoteKind::None,
             ),
@@ -440,20 +440,20 @@ pub(crate) fn cmp(
 pub(crate) fn single_eq(
     left: &Value,
     right: &Value,
-    options: &Options,
+    _options: &Options,
     span: Span,
 ) -> SassResult<Value> {
     Ok(Value::String(
         format!(
             "{}={}",
-            left.to_css_string(span, options.is_compressed())?,
-            right.to_css_string(span, options.is_compressed())?
+            left.to_css_string(span, false)?,
+            right.to_css_string(span, false)?
         ),
         QuoteKind::None,
     ))
 }
 
-pub(crate) fn div(left: Value, right: Value, options: &Options, span: Span) -> SassResult<Value> {
+pub(crate) fn div(left: Value, right: Value, _options: &Options, span: Span) -> SassResult<Value> {
     Ok(match (left, right) {
         (Value::Dimension(num1), Value::Dimension(num2)) => {
             if num2.unit == Unit::None {
@@ -493,8 +493,8 @@ pub(crate) fn div(left: Value, right: Value, options: &Options, span: Span) -> S
         (left, right) => Value::String(
             format!(
                 "{}/{}",
-                left.to_css_string(span, options.is_compressed())?,
-                right.to_css_string(span, options.is_compressed())?
+                left.to_css_string(span, false)?,
+                right.to_css_string(span, false)?
             ),
             QuoteKind::None,
         ),
